@@ -543,13 +543,13 @@ func TestC14(t *testing.T) {
 					var v, note string
 					switch in.ty {
 					case "number":
-						v = rapid.SampledFrom([]string{"42", "1.5", "abc", "true", "null", "${{ 1 }}", "${{ fromJSON(github.event.client_payload.n) }}", "pre-${{ github.run_number }}", "${{ 4 }}2", "${{ 'x' }}"}).Draw(rt, "nv")
+						v = rapid.SampledFrom([]string{"42", "1.5", "abc", "true", "null", "${{ 1 }}", "${{ fromJSON(github.event.client_payload.n) }}", "pre-${{ github.run_number }}", "${{ 4 }}2", "${{ 'x' }}", "${{ 1 }}${{ 2 }}", "${{ github.run_id }}-${{ github.run_attempt }}"}).Draw(rt, "nv")
 						switch v {
-						case "abc", "true", "null", "pre-${{ github.run_number }}", "${{ 4 }}2", "${{ 'x' }}":
+						case "abc", "true", "null", "pre-${{ github.run_number }}", "${{ 4 }}2", "${{ 'x' }}", "${{ 1 }}${{ 2 }}", "${{ github.run_id }}-${{ github.run_attempt }}":
 							note = "bad"
 						}
 					case "string":
-						v = rapid.SampledFrom([]string{"abc", "null", "${{ github.sha }}", "v=${{ true }}", "${{ fromJSON(github.event.client_payload.n) }}", "x y"}).Draw(rt, "sv")
+						v = rapid.SampledFrom([]string{"abc", "null", "${{ github.sha }}", "v=${{ true }}", "${{ fromJSON(github.event.client_payload.n) }}", "x y", "${{ github.ref_name }}-${{ github.run_id }}", "${{ 1 }} and ${{ true }}"}).Draw(rt, "sv")
 						if v == "null" {
 							note = "bad"
 						}
